@@ -6,7 +6,7 @@
    sections are atomic steps here by definition) and that the schedules of real threads are covered
    (every schedule is, in the model).  See the level note of the check. *)
 From Coq Require Import List NArith ZArith Bool Relations.
-From KV.locks Require Import Locks LocksTable LocksOps LocksProofs LocksRun.
+From KV.locks Require Import Locks LocksTable LocksOps LocksProofs LocksRun GenBorrows.
 Import ListNotations.
 
 (* T1  If every operation of every thread has at most ONE critical section, then running the
@@ -106,6 +106,25 @@ Theorem ops_match_table :
     subseq (modes_alone 8 (prog_of l o) s) (table_modes (unroll 1 (footprint_of (fn_of_op o)))) = true.
 Proof. exact ops_match_table_proof. Qed.
 Print Assumptions ops_match_table.
+
+(* T5  "one borrow spans the whole operation", tied to the source: the borrows extracted from the
+       text of every core-library arm of list.rs / map.rs on THIS checkout (GenBorrows.v, k2v_locks:
+       mode + whether the borrow sits inside a loop body) equal the pinned table ... *)
+Theorem borrow_pins_match : pins_eqb gen_borrows pinned_borrows = true.
+Proof. vm_compute. reflexivity. Qed.
+Print Assumptions borrow_pins_match.
+
+(* ... and the pinned table agrees with the footprint rows: same acquisitions in order, a borrow in
+   a loop body exactly where the row has an acquiring Loop, one borrow in single-section arms *)
+Theorem borrow_pins_consistent : forallb pin_consistent pinned_borrows = true.
+Proof. exact pinned_consistent_proof. Qed.
+Print Assumptions borrow_pins_consistent.
+
+(* the compound mutations are single steps: T1' covers them *)
+Example compound_ops_single :
+  forallb op_is_single [OExtendGen [1; 2]%Z; OResize 3 0; OFill 1; OReverse; OSort; ORetainVal 1;
+                        MExtendGen [(1, 2)]%Z; MSort; OExtend [1]%Z; OClear; MClear] = true.
+Proof. reflexivity. Qed.
 
 (* ------------------------------------------------------------------------------------------ *)
 (* non-vacuity and refutations (the premises are necessary)                                    *)
